@@ -58,6 +58,10 @@ Fixpoint run_ops (ops : list tree) (st : state) : option (list tree) :=
             else
               let '(st', c, res) := step e o st in
               let seg := skipn (length (slog st)) (slog st') in
+              (* a rollback() that raised leaves the transaction half restored: the history is cut *)
+              if match o with Rollback => negb (Z.eqb c 0) | _ => false end
+              then Some [observe c res seg st'; L [I 99]]
+              else
               match run_ops r st' with
               | Some out => Some (observe c res seg st' :: out)
               | None => None
